@@ -2,7 +2,8 @@
 # usage: tools/build.sh <harness-package-dir> [extra go test -c flags...]
 # Regenerates the overlay from /repo's current tree and builds the harness test binary into work/<name>.test
 set -e
-cd /verif
+ROOT=$(cd "$(dirname "$0")/.." && pwd)
+cd "$ROOT"
 export GOFLAGS=-mod=mod GOPROXY=off GOSUMDB=off GOTOOLCHAIN=local
 REPO=${VERIF_REPO:-/repo}
 mkdir -p work
@@ -11,5 +12,5 @@ pkg=$1; shift
 name=$(basename "$pkg")
 suffix=${VERIF_BIN_SUFFIX:-}
 ov=work/ov.$name$suffix
-rm -rf "$ov" && ./work/mkoverlay -repo "$REPO" -out "$ov" -shim /verif/shim -maprange all
+rm -rf "$ov" && ./work/mkoverlay -repo "$REPO" -out "$ov" -shim "$ROOT/shim" -maprange all
 go1.26.8 test -c -overlay "$ov/overlay.json" -vet=off "$@" -o "work/$name$suffix.test" "./$pkg"
